@@ -102,6 +102,10 @@ def gen_iso(tier):
     hi = 600 if tier == "quick" else 400
     cases.append({"k": "iso", "scn": 20, "ivl_ms": 100, "max_ms": 400, "accepts": 6, "tries": 8, "stall_ms": 1600, "hold_ms": 60,
                   "need": 5, "slack_lo": 20, "slack_hi": hi})
+    # scenario 22: the delays the connecter itself reports (ConnectRetried) after k lost connections + listener gone
+    for (ivl, mx, hangs) in ([(50, 200, 4), (100, 150, 1), (50, 0, 2)] if tier == "quick" else
+                             [(50, 200, 4), (100, 150, 1), (50, 0, 2), (50, 200, 0), (20, 1000, 7), (60, 60, 3), (30, 100, 5), (100, 150, 3)]):
+        cases.append({"k": "iso", "scn": 22, "ivl_ms": ivl, "max_ms": mx, "hangs": hangs, "down_ms": 1300})
     cases.append({"k": "iso", "scn": 21, "runs": 4 if tier == "quick" else 12, "accepts": 4, "stall_ms": 1500})
     if tier != "quick":
         for rep in range(3):
@@ -119,6 +123,8 @@ def to_coq(c):
         return "(CBo %s %s %d %s)" % (c["base"], c["max"], c["attempts"], C.cNlist(c["ops"]))
     if c["scn"] == 31:
         return "(CLag %d %d)" % (c["sockets"], c["workers"])
+    if c["scn"] == 22:
+        return "(CRetry %d %d %d)" % (c["ivl_ms"], c["max_ms"], c["hangs"])
     if c["scn"] == 20:
         return "(CTiming %d %d %d %d %d)" % (c["ivl_ms"], c["max_ms"], c["need"], c["slack_lo"], c["slack_hi"])
     return "(CIso %d)" % c["scn"]
@@ -206,6 +212,24 @@ def make_oracle(res):
                 if i > 0 and g > 2 * gaps[i - 1] + hi:
                     return "reconnect gaps grow more than geometrically: %s" % gaps
             return None
+        if scn == 22:
+            row = rows[0]
+            ivs = row[3:]
+            ivl, mx = c["ivl_ms"], c["max_ms"]
+            if row[1] != 1:
+                return "scenario 22: traffic did not resume after the peer came back (row %s; %s)" % (row, o.get("detail"))
+            if row[2] != 1:
+                return "scenario 22: socket unusable after reconnecting (row %s)" % row
+            if not ivs:
+                return "scenario 22: the connecter reported no retry while the listener was gone (%s)" % o.get("detail")
+            for i, d in enumerate(ivs):
+                if d < ivl:
+                    return "retry delay %d ms is below RECONNECT_IVL %d ms (reported delays %s)" % (d, ivl, ivs)
+                if mx >= ivl and mx > 0 and d > mx:
+                    return "retry delay %d ms exceeds RECONNECT_IVL_MAX %d ms (reported delays %s, %d lost connections before)" % (d, mx, ivs, c["hangs"])
+                if i > 0 and d > 2 * ivs[i - 1]:
+                    return "retry delays grow more than geometrically: %s" % ivs
+            return None
         row = rows[0]
         ok = row[1:] == [1, 1]
         if ok:
@@ -284,5 +308,5 @@ def main(argv):
         "Instant::now() is not injectable: the model evaluates on_connection_failure at a fixed small `now`; triples whose delay lies within 2^41 s of the i64 overflow of Instant + Duration are not generated",
         "stack scenarios: the model predicts the observable class (socket up, healthy connection and listener present); which ZmqError class a given raw fault produces is not compared",
         "scenario 31 (event-bus lag) is deterministic only on a current-thread runtime; multi-thread runtimes need larger bursts and are not part of the check",
-        "TcpConnecter's own retry loop (connect refused) is modelled and proved (C17_connecter_*) but tied only through scenario 12 / the pacing scenario",
+        "TcpConnecter's own retry loop (connect refused) is modelled and proved (C17_connecter_*) and tied through scenario 22: the delays it reports on the monitor (ConnectRetried) must be conn_initial / conn_next of the model for one of the possible inherited attempt counts",
     ])
